@@ -21,11 +21,11 @@ theorem WM.cnt_zero (w : WM) (i : Nat) : w.cnt i = 0 ↔ ∀ p ∈ w.pending, p.
 theorem WM.advance_props (c : MvccCfg) (fuel : Nat) (w : WM) :
     (WM.advance c fuel w).pending = w.pending ∧ (WM.advance c fuel w).lastIndex = w.lastIndex ∧
     w.doneUntil ≤ (WM.advance c fuel w).doneUntil ∧
-    (w.doneUntil ≤ w.lastIndex → (WM.advance c fuel w).doneUntil ≤ w.lastIndex) ∧
+    (WM.advance c fuel w).doneUntil ≤ max w.doneUntil w.lastIndex ∧
     (c.wmHoldsAtDone = true → (∀ p ∈ w.pending, w.doneUntil ≤ p.1) →
       ∀ p ∈ w.pending, (WM.advance c fuel w).doneUntil ≤ p.1) := by
   induction fuel generalizing w with
-  | zero => exact ⟨rfl, rfl, Nat.le_refl _, fun h => h, fun _ h => h⟩
+  | zero => exact ⟨rfl, rfl, Nat.le_refl _, Nat.le_max_left _ _, fun _ h => h⟩
   | succ n ih =>
     unfold WM.advance
     by_cases hcond : w.doneUntil < w.lastIndex ∧ w.cnt (w.doneUntil + 1) = 0 ∧
@@ -34,7 +34,7 @@ theorem WM.advance_props (c : MvccCfg) (fuel : Nat) (w : WM) :
       obtain ⟨h1, h2, h3, h4, h5⟩ := ih { w with doneUntil := w.doneUntil + 1 }
       refine ⟨h1, h2, ?_, ?_, ?_⟩
       · simp only at h3; omega
-      · intro _; exact h4 (by simp only; omega)
+      · simp only at h4; omega
       · intro hh hall
         apply h5 hh
         intro p hp
@@ -42,22 +42,22 @@ theorem WM.advance_props (c : MvccCfg) (fuel : Nat) (w : WM) :
         have := hall p hp
         simp only; omega
     · rw [if_neg hcond]
-      exact ⟨rfl, rfl, Nat.le_refl _, fun h => h, fun _ h => h⟩
+      exact ⟨rfl, rfl, Nat.le_refl _, Nat.le_max_left _ _, fun _ h => h⟩
 
 /-- the read watermark is consistent with the timestamps and ghost tags handed out so far -/
 structure WMOk (w : WM) (nextTs nextTag : Nat) : Prop where
   held : ∀ p ∈ w.pending, w.doneUntil ≤ p.1
-  doneLe : w.doneUntil ≤ w.lastIndex
+  doneLt : w.doneUntil < nextTs
   lastLt : w.lastIndex < nextTs
   tagLt : ∀ p ∈ w.pending, p.2 < nextTag
 
 theorem WMOk.mono {w : WM} {n g n' g' : Nat} (h : WMOk w n g) (hn : n ≤ n') (hg : g ≤ g') : WMOk w n' g' :=
-  ⟨h.held, h.doneLe, by have := h.lastLt; omega, fun p hp => by have := h.tagLt p hp; omega⟩
+  ⟨h.held, by have := h.doneLt; omega, by have := h.lastLt; omega, fun p hp => by have := h.tagLt p hp; omega⟩
 
 theorem WM.tryAdvance_props (c : MvccCfg) (w : WM) :
     (WM.tryAdvance c w).pending = w.pending ∧ (WM.tryAdvance c w).lastIndex = w.lastIndex ∧
     w.doneUntil ≤ (WM.tryAdvance c w).doneUntil ∧
-    (w.doneUntil ≤ w.lastIndex → (WM.tryAdvance c w).doneUntil ≤ w.lastIndex) ∧
+    (WM.tryAdvance c w).doneUntil ≤ max w.doneUntil w.lastIndex ∧
     (c.wmHoldsAtDone = true → (∀ p ∈ w.pending, w.doneUntil ≤ p.1) →
       ∀ p ∈ w.pending, (WM.tryAdvance c w).doneUntil ≤ p.1) :=
   WM.advance_props c _ w
@@ -69,10 +69,11 @@ theorem WMOk_begin (c : MvccCfg) (hz : c.wmTracksZero = true) (hh : c.wmHoldsAtD
   unfold WM.begin
   simp only [hz, Bool.true_eq_false, and_false, if_false]
   have hmax : max w.lastIndex (n - 1) = n - 1 := by have := h.lastLt; omega
+  rw [hmax]
   obtain ⟨h1, h2, h3, h4, h5⟩ := WM.tryAdvance_props c
-    { doneUntil := w.doneUntil, lastIndex := max w.lastIndex (n - 1), pending := (n - 1, g) :: w.pending }
+    { doneUntil := w.doneUntil, lastIndex := n - 1, pending := (n - 1, g) :: w.pending }
   simp only at h1 h2 h3 h4 h5
-  have hd : w.doneUntil ≤ n - 1 := by have := h.doneLe; have := h.lastLt; omega
+  have hd : w.doneUntil ≤ n - 1 := by have := h.doneLt; omega
   have hall : ∀ p ∈ (n - 1, g) :: w.pending, w.doneUntil ≤ p.1 := by
     intro p hp
     rcases List.mem_cons.mp hp with rfl | hp
@@ -80,8 +81,8 @@ theorem WMOk_begin (c : MvccCfg) (hz : c.wmTracksZero = true) (hh : c.wmHoldsAtD
     · exact h.held p hp
   refine ⟨⟨?_, ?_, ?_, ?_⟩, ?_, ?_, h3⟩
   · rw [h1]; exact h5 hh hall
-  · rw [h2]; exact h4 (by rw [hmax]; exact hd)
-  · rw [h2, hmax]; omega
+  · omega
+  · rw [h2]; omega
   · rw [h1]
     intro p hp
     rcases List.mem_cons.mp hp with rfl | hp
@@ -103,7 +104,7 @@ theorem WMOk_done (c : MvccCfg) (hz : c.wmTracksZero = true) (hh : c.wmHoldsAtDo
     fun p hp => h.held p (List.mem_filter.mp hp).1
   refine ⟨⟨?_, ?_, ?_, ?_⟩, ?_, h3⟩
   · rw [h1]; exact h5 hh hall
-  · rw [h2]; exact h4 h.doneLe
+  · have := h.doneLt; have := h.lastLt; omega
   · rw [h2]; exact h.lastLt
   · rw [h1]; intro p hp; exact h.tagLt p (List.mem_filter.mp hp).1
   · intro p hp hne
@@ -175,6 +176,13 @@ theorem TxnOk_evolve {c : MvccCfg} (hg : c.trackGet = true) {fp : Key → Nat} {
     rcases List.mem_cons.mp hp with rfl | hp
     · exact Or.inl rfl
     · exact Or.inr (h.1 p (List.mem_filter.mp hp).1)
+  | scan tracked =>
+    refine ⟨h.1, ?_⟩
+    intro k' hk'
+    rcases List.mem_append.mp hk' with hk' | hk'
+    · obtain ⟨it, hit, rfl⟩ := List.mem_map.mp hk'
+      exact List.mem_append_right _ (List.mem_map.mpr ⟨it, hit, rfl⟩)
+    · exact List.mem_append_left _ (h.2 k' hk')
 
 theorem doneReadS_of_done (c : MvccCfg) (s : St) (t : Txn) (h : t.doneRead = true) : doneReadS c s t = s := by
   unfold doneReadS; simp [h]
@@ -335,7 +343,7 @@ theorem InvC_commit2 (c : MvccCfg) (hd : c.DetectGood) (hz : c.wmTracksZero = tr
     (x4 : X.lastCleanup = (newCommitTs c s t0).lastCleanup) (x5 : X.committed = (newCommitTs c s t0).committed)
     (x6 : X.log = s.log ∨ X.log = { ts := s.nextTs, readTs := t0.readTs, writes := t0.writes, rlog := t0.rlog } :: s.log) :
     InvC fp (discardTxn c X id0 { t0 with doneRead := true }) := by
-  obtain ⟨_, hg, _, _, hrec, hpr⟩ := hd
+  obtain ⟨_, hg, _, _, hrec, hpr, _, _⟩ := hd
   have hdr : (doneReadS c s t0).rm = s.rm.done c t0.readTs t0.tag :=
     doneReadS_rm_of_not c s t0 (h.notDone id0 t0 hl0)
   have hrm : (discardTxn c X id0 { t0 with doneRead := true }).rm = s.rm.done c t0.readTs t0.tag := by
@@ -368,12 +376,85 @@ theorem InvC_commit2 (c : MvccCfg) (hd : c.DetectGood) (hz : c.wmTracksZero = tr
       · exact ⟨t0.ckeys, n2, (h.txnOk id0 t0 hl0).1⟩
       · exact n3 cm hcm hlt
 
-theorem InvC_step (c : MvccCfg) (hc : c.ConfGood) (fp : Key → Nat) (s : St) (op : Op) (h : InvC fp s) :
+theorem InvC_commitAny (c : MvccCfg) (hd : c.DetectGood) (hz : c.wmTracksZero = true) (hh : c.wmHoldsAtDone = true)
+    (fp : Key → Nat) (s : St) (op : Op) (id : Nat) (io : Bool) (h : InvC fp s)
+    (hop : (step c fp s op).1 = (match getTxn s id with
+      | none => s
+      | some t => (commitTxn c s id t io).1))
+    (hsame : getTxn s id = none → (step c fp s op).1 = s)
+    (hnb : ∀ id upd, op ≠ .begin id upd) : InvC fp (step c fp s op).1 := by
+  have hg : c.trackGet = true := hd.2.1
+  cases hgt : getTxn s id with
+  | none =>
+    apply InvC_same c hg fp s _ op h rfl hnb <;> rw [hsame hgt]
+  | some t0 =>
+    rw [hgt] at hop
+    simp only at hop
+    by_cases hdd : t0.discarded = true
+    · have e : (step c fp s op).1 = s := by rw [hop]; simp [commitTxn, hdd]
+      apply InvC_same c hg fp s _ op h rfl hnb <;> rw [e]
+    · have hdd' : t0.discarded = false := by simpa using hdd
+      have hl0 : Live s id t0 := ⟨hgt, hdd'⟩
+      by_cases hw : t0.writes = []
+      · have e : (step c fp s op).1 = discardTxn c s id t0 := by
+          rw [hop]; simp [commitTxn, hdd, hw]
+        rw [e]
+        exact InvC_discard c hg hz hh fp s op id t0 h hl0 e.symm hnb
+      · rcases commitTxn_cases c s id t0 io hdd' hw with ⟨_, hs1, _⟩ | ⟨_, hs1⟩ | ⟨_, _, _, hs1⟩
+        · rw [hop, hs1]
+          exact InvC_discard c hg hz hh fp s op id t0 h hl0 (by rw [hop, hs1]) hnb
+        · rw [hop, hs1]
+          exact InvC_commit2 c hd hz hh fp s op id t0 _ h hl0 (by rw [hop, hs1])
+            hnb (by simp) (by simp) (by simp) rfl rfl (Or.inl (by simp))
+        · rw [hop, hs1]
+          exact InvC_commit2 c hd hz hh fp s op id t0 _ h hl0 (by rw [hop, hs1])
+            hnb (by simp) (by simp) (by simp) rfl rfl (Or.inr (by simp))
+
+theorem InvC_step (c : MvccCfg) (hc : c.ConfGood) (fp : Key → Nat) (s : St) (op : Op) (hA : InvA s) (h : InvC fp s) :
     InvC fp (step c fp s op).1 := by
   obtain ⟨hd, hz, hh⟩ := hc
   have hg : c.trackGet = true := hd.2.1
   have hoff : c.readTsOff = 1 := hd.1
   cases op with
+  | commitIO id =>
+    apply InvC_commitAny c hd hz hh fp s (.commitIO id) id true h
+    · simp only [step]; cases getTxn s id <;> rfl
+    · intro hn; simp [step, hn]
+    · intro _ _ hh; cases hh
+  | scan id =>
+    apply InvC_same c hg fp s _ (.scan id) h rfl (by intro _ _ hh; cases hh)
+    all_goals
+      simp only [step]
+      split
+      · rfl
+      · split
+        · rfl
+        · split
+          · rfl
+          · rfl
+  | reopen =>
+    have hl : ∀ id t0, ¬ Live (step c fp s .reopen).1 id t0 := by
+      intro id t0 hl; simp [Live, step, reopenDB, getTxn] at hl
+    have hseed : c.SeedGood := hd.2.2.2.2.2.2.2
+    have hn : (step c fp s .reopen).1.nextTs = maxTs s.store + 1 := reopen_nextTs c hseed s
+    refine ⟨by rw [hn]; omega, ⟨?_, ?_, ?_, ?_⟩, ?_, ?_, ?_, ?_, ?_, ?_, ?_⟩
+    · intro p hp; simp [step, reopenDB] at hp
+    · rw [hn]; simp [step, reopenDB]
+    · rw [hn]; simp [step, reopenDB]
+    · intro p hp; simp [step, reopenDB] at hp
+    · intro id t0 hl0; exact absurd hl0 (hl id t0)
+    · intro id t0 hl0; exact absurd hl0 (hl id t0)
+    · intro id t0 hl0; exact absurd hl0 (hl id t0)
+    · intro id1 t1 id2 t2 hl0; exact absurd hl0 (hl id1 t1)
+    · simp [step, reopenDB]
+    · intro cm hcm hlt
+      have e2 : (step c fp s .reopen).1.log = s.log := rfl
+      have e3 : (step c fp s .reopen).1.lastCleanup = maxTs s.store := rfl
+      rw [e2] at hcm
+      rw [e3] at hlt
+      have := hA.logLe cm hcm
+      omega
+    · intro id t0 hl0; exact absurd hl0 (hl id t0)
   | begin id upd =>
     obtain ⟨b1, b2, b3, b4⟩ := WMOk_begin c hz hh s.rm s.nextTs s.nextTag h.wm h.pos
     apply InvC_of_frame c hg fp s _ (.begin id upd) h rfl
@@ -424,29 +505,10 @@ theorem InvC_step (c : MvccCfg) (hc : c.ConfGood) (fp : Key → Nat) (s : St) (o
         rw [e]
         exact InvC_discard c hg hz hh fp s (.discard id) id t0 h hl0 e.symm (by intro _ _ hh; cases hh)
   | commit id =>
-    cases hgt : getTxn s id with
-    | none =>
-      apply InvC_same c hg fp s _ (.commit id) h rfl (by intro _ _ hh; cases hh) <;> simp [step, hgt]
-    | some t0 =>
-      by_cases hdd : t0.discarded = true
-      · apply InvC_same c hg fp s _ (.commit id) h rfl (by intro _ _ hh; cases hh) <;> simp [step, hgt, commitTxn, hdd]
-      · have hdd' : t0.discarded = false := by simpa using hdd
-        have hl0 : Live s id t0 := ⟨hgt, hdd'⟩
-        have e0 : (step c fp s (.commit id)).1 = (commitTxn c s id t0).1 := by simp [step, hgt]
-        by_cases hw : t0.writes = []
-        · have e : (step c fp s (.commit id)).1 = discardTxn c s id t0 := by
-            simp [step, hgt, commitTxn, hdd, hw]
-          rw [e]
-          exact InvC_discard c hg hz hh fp s (.commit id) id t0 h hl0 e.symm (by intro _ _ hh; cases hh)
-        · rcases commitTxn_cases c s id t0 hdd' hw with ⟨_, hs1, _⟩ | ⟨_, hs1⟩ | ⟨_, _, hs1⟩
-          · rw [e0, hs1]
-            exact InvC_discard c hg hz hh fp s (.commit id) id t0 h hl0 (by rw [e0, hs1]) (by intro _ _ hh; cases hh)
-          · rw [e0, hs1]
-            exact InvC_commit2 c hd hz hh fp s (.commit id) id t0 _ h hl0 (by rw [e0, hs1])
-              (by intro _ _ hh; cases hh) (by simp) (by simp) (by simp) rfl rfl (Or.inl (by simp))
-          · rw [e0, hs1]
-            exact InvC_commit2 c hd hz hh fp s (.commit id) id t0 _ h hl0 (by rw [e0, hs1])
-              (by intro _ _ hh; cases hh) (by simp) (by simp) (by simp) rfl rfl (Or.inr (by simp))
+    apply InvC_commitAny c hd hz hh fp s (.commit id) id false h
+    · simp only [step]; cases getTxn s id <;> rfl
+    · intro hn; simp [step, hn]
+    · intro _ _ hh; cases hh
   | versions k =>
     by_cases hcl : s.closed = true
     · apply InvC_same c hg fp s _ (.versions k) h rfl (by intro _ _ hh; cases hh) <;> simp [step, versionsOf, hcl]
@@ -480,6 +542,7 @@ theorem InvC_step (c : MvccCfg) (hc : c.ConfGood) (fp : Key → Nat) (s : St) (o
         rw [e4, e5, e6]; exact h.hist
 
 theorem Reach_InvC {c : MvccCfg} (hc : c.ConfGood) {fp : Key → Nat} {s : St} (h : Reach c fp s) : InvC fp s :=
-  Reach_ind (P := InvC fp) (InvC_init fp) (fun s op _ hs => InvC_step c hc fp s op hs) h
+  Reach_ind (P := InvC fp) (InvC_init fp)
+    (fun s op hr hs => InvC_step c hc fp s op (Reach_InvA hc.1.2.2.2.2.2.2.2 hr) hs) h
 
 end NoKV.Mvcc
